@@ -76,8 +76,26 @@ def unfx(f):
 # --------------------------------------------------------------------------------------------
 class Scratch:
     def __init__(self, tag):
-        self.dir = os.path.join(VERIF, ".scratch", "%s-%d-%d" % (tag, os.getpid(), int(time.time() * 1000) % 10 ** 9))
+        root = os.path.join(VERIF, ".scratch")
+        os.makedirs(root, exist_ok=True)
+        # scratch directories of runs that were killed: remove what is older than six hours
+        now = time.time()
+        for name in os.listdir(root):
+            p = os.path.join(root, name)
+            try:
+                if os.path.isdir(p) and now - os.path.getmtime(p) > 6 * 3600 and name != "evidence_other_tree":
+                    shutil.rmtree(p, ignore_errors=True)
+            except OSError:
+                pass
+        self.dir = os.path.join(root, "%s-%d-%d" % (tag, os.getpid(), int(time.time() * 1000) % 10 ** 9))
         os.makedirs(self.dir, exist_ok=True)
+        self._pid = os.getpid()
+        import atexit
+        atexit.register(self._atexit)          # also on the machinery-error path
+
+    def _atexit(self):
+        if os.getpid() == self._pid:            # not in forked workers
+            self.cleanup()
 
     def path(self, *a):
         return os.path.join(self.dir, *a)
